@@ -1,7 +1,7 @@
 (* Entry point of the extracted runner: one case in, one observation out.
    The first integer of a case selects the model family. *)
 From Coq Require Import ZArith List.
-From Verif Require Import Sexp CondCodec TokenCodec SelectCodec CryptoCodec MintCodec HttpCodec.
+From Verif Require Import Sexp CondCodec TokenCodec SelectCodec CryptoCodec MintCodec HttpCodec WCodec.
 Import ListNotations.
 Open Scope Z_scope.
 
@@ -13,5 +13,6 @@ Definition run_case (c : sexp) : sexp :=
   | L [A 4; x] => run_crypto x
   | L [A 5; x] => run_mint x
   | L [A 6; x] => run_http x
+  | L [A 7; x] => run_wallet x
   | _ => bad_case
   end.
